@@ -37,6 +37,15 @@ os.environ[GUARD] = '1'
 
 COQ_TIMEOUT = int(os.environ.get('VERIF_COQ_TIMEOUT', '900'))
 
+# A broken implementation can blow up memory (e.g. rows duplicated at every stage); make
+# that a Python MemoryError (a failing case) instead of an OOM kill of the whole check.
+try:
+    import resource
+    _lim = int(os.environ.get('VERIF_MEM_GB', '10')) * (1 << 30)
+    resource.setrlimit(resource.RLIMIT_AS, (_lim, _lim))
+except Exception:  # noqa
+    pass
+
 
 def seed():
     try:
